@@ -134,7 +134,11 @@ def build_proofs(pid, cfg, tier):
             if FORBIDDEN.search(line):
                 res["forbidden"].append(f"{m}:{ln}: {line.strip()}")
     with Lock("lake"):
-        rc, out = sh(["lake", "build", props_mod, "nexo_driver"], cwd=LEAN, timeout=3000)
+        rc0, out0 = sh(["lake", "build", "nexo_driver"], cwd=LEAN, timeout=3000)
+        if rc0 != 0:
+            res["infra_error"] = "the model driver does not build:\n" + out0[-3000:]
+            return res
+        rc, out = sh(["lake", "build", props_mod], cwd=LEAN, timeout=3000)
     res["log"] = out[-6000:]
     if rc != 0:
         # which theorems are hit?  map error lines of the Props file to the enclosing theorem;
